@@ -26,6 +26,7 @@ LOG_FILE: str | None = None    # cross-process log (O_APPEND, one JSON line per 
 _LOCK = threading.Lock()
 _SEQ = itertools.count()
 REG: dict[str, dict] = {}      # function id -> description of the function
+_SHARED_EXC: dict[str, BaseException] = {}
 _COUNTS: dict[str, int] = {}
 GATE = None                    # optional callable(fname, event, kwargs_json, logfn): controllable executor
 DELAY = None                   # optional callable(fname, kwargs_json): seeded delays for real pools
@@ -111,8 +112,14 @@ def invoke(fid: str, kwargs: dict[str, Any], res: Any = None) -> Any:
     if fail is not None:
         w = fail["when"]
         if w == "*" or (isinstance(w, int) and w == base["n"]) or (isinstance(w, dict) and w == kw_json):
-            emit("fail", cls=fail["cls"], args=fail.get("args", []))
-            exc = EXC[fail["cls"]](*fail.get("args", []))
+            eargs = list(fail.get("args", []))
+            if fail.get("argskw"):           # the exception's args name the failing invocation (so that a stale snapshot /
+                eargs.append(json.dumps(kw_json, sort_keys=True))   # exception of an EARLIER failure is distinguishable)
+            if fail.get("shared"):           # user code that raises one pre-built exception INSTANCE again and again
+                exc = _SHARED_EXC.setdefault(fid, EXC[fail["cls"]](*eargs))
+            else:
+                exc = EXC[fail["cls"]](*eargs)
+            emit("fail", cls=fail["cls"], args=list(exc.args))
             if fail.get("prenote"):          # the user's exception already carries a note of its own
                 exc.add_note("note added by the user function before raising")
             raise exc
